@@ -83,7 +83,7 @@ def Codes.decode (c : Codes) (x : UInt8) : Act :=
   else if x = c.charErr then .charErr
   else .unknown
 
-def decodeFin (t : Array UInt8) : Fin :=
+def decodeFin (t : Array UInt8) : EndMark :=
   if t.size ≤ 256 then .absent
   else
     let x := t.getD 256 0
@@ -273,7 +273,7 @@ def expected (m : Mode) (b : UInt8) : Act :=
   | .u => if isHex b then .uOk else .charErr
   | .space => if isWsNoNl b then .skipChar else if b = 10 then .skipNewline else .charErr
 
-def expectedFin : Mode → Fin
+def expectedFin : Mode → EndMark
   | .value => .v
   | .after => .a
   | .zero | .digit | .frac | .exp => .n
@@ -305,7 +305,7 @@ def tableDiffs (T : Tables) : List (Mode × Nat × Act × Act) :=
       let b := UInt8.ofNat i
       if T.act m b = expected m b then none else some (m, i, T.act m b, expected m b)
 
-def finDiffs (T : Tables) : List (Mode × Fin × Fin) :=
+def finDiffs (T : Tables) : List (Mode × EndMark × EndMark) :=
   Mode.all.filterMap fun m => if T.fin m = expectedFin m then none else some (m, T.fin m, expectedFin m)
 
 end OjgVerif.Json
